@@ -77,14 +77,62 @@ def _call(args):
     return getattr(mod, fname)(item)
 
 
-def pool_map(src, modname, fname, items, env=None, nproc=None, chunksize=64):
-    """Run harness.<modname>.<fname>(item) for every item in fresh worker processes."""
+def _run_batch(modname, fname, items):
+    import importlib
+    mod = importlib.import_module(modname)
+    fn = getattr(mod, fname)
+    return [fn(it) for it in items]
+
+
+def _isolated(src, env, modname, fname, items):
+    """Run items in a private process; on a crash (abort, segfault) bisect down to the culprit(s)."""
+    from concurrent.futures import ProcessPoolExecutor
+    from concurrent.futures.process import BrokenProcessPool
+    ctx = mp.get_context("fork")
+    try:
+        with ProcessPoolExecutor(1, mp_context=ctx, initializer=_init_worker, initargs=(src, env)) as ex:
+            return ex.submit(_run_batch, modname, fname, items).result()
+    except BrokenProcessPool:
+        if len(items) == 1:
+            return [{"id": items[0].get("id"), "crashed": True}]
+        h = len(items) // 2
+        return _isolated(src, env, modname, fname, items[:h]) + _isolated(src, env, modname, fname, items[h:])
+
+
+def pool_map(src, modname, fname, items, env=None, nproc=None, chunksize=100):
+    """Run harness.<modname>.<fname>(item) for every item in fresh worker processes.
+
+    Crash-robust: a worker killed by the code under test (assert abort, segfault) yields
+    {"id":..., "crashed": True} for exactly the culprit items.
+    """
+    from concurrent.futures import ProcessPoolExecutor, ThreadPoolExecutor, as_completed
+    from concurrent.futures.process import BrokenProcessPool
     items = list(items)
     if not items:
         return []
+    env = env or {}
+    nproc = nproc or NPROC
+    batches = [items[i:i + chunksize] for i in range(0, len(items), chunksize)]
+    results = {}
     ctx = mp.get_context("fork")
-    with ctx.Pool(nproc or NPROC, initializer=_init_worker, initargs=(src, env or {})) as p:
-        return p.map(_call, [(modname, fname, it) for it in items], chunksize=chunksize)
+    ex = ProcessPoolExecutor(nproc, mp_context=ctx, initializer=_init_worker, initargs=(src, env))
+    futs = {ex.submit(_run_batch, modname, fname, b): bi for bi, b in enumerate(batches)}
+    for f in as_completed(futs):
+        try:
+            results[futs[f]] = f.result()
+        except BrokenProcessPool:
+            pass
+    ex.shutdown(wait=True, cancel_futures=True)
+    todo = [bi for bi in range(len(batches)) if bi not in results]
+    if todo:
+        with ThreadPoolExecutor(nproc) as tex:
+            fs = {tex.submit(_isolated, src, env, modname, fname, batches[bi]): bi for bi in todo}
+            for f in as_completed(fs):
+                results[fs[f]] = f.result()
+    out = []
+    for bi in range(len(batches)):
+        out += results[bi]
+    return out
 
 
 # ---------------------------------------------------------------------------------------------
